@@ -22,6 +22,21 @@ for mp in sorted(glob.glob('/verif/seeded/*/meta.json')):
         v='not run'
     rows.append('| %s | %s | %s | %s | %s |'%(name,m.get('property',''),short(m.get('summary','')),short(m.get('needs',''),120),v))
 tab='| seeded/ | property | change | needs | result |\n|---|---|---|---|---|\n'+'\n'.join(rows)+'\n'
+# summary per round (name suffix: none = round 1, b = round 2, c = round 3)
+import collections
+st=collections.defaultdict(lambda: [0,0,0,0])
+for mp in sorted(glob.glob('/verif/seeded/*/meta.json')):
+    name=os.path.basename(os.path.dirname(mp)); m=json.load(open(mp))
+    rd={'b':2,'c':3,'d':4}.get(name[-1],1)
+    det=m.get('detection',[])
+    st[rd][0]+=1
+    if any(d['verdict']=='caught' for d in det):
+        if m.get('strengthened'): st[rd][2]+=1
+        else: st[rd][1]+=1
+    else: st[rd][3]+=1
+tab+='\nRounds (a later round had to avoid the functions and, where possible, the clauses of the earlier ones):\n\n| round | changes kept | caught by the checks as they were | caught after the check was strengthened | not detected (reason in the row) |\n|---|---|---|---|---|\n'
+for rd in sorted(st):
+    a=st[rd]; tab+='| %d | %d | %d | %d | %d |\n'%(rd,a[0],a[1],a[2],a[3])
 p='/verif/DESIGN.md'
 s=open(p).read()
 a='<!-- SEEDTABLE:BEGIN -->\n'; b='<!-- SEEDTABLE:END -->'
